@@ -65,6 +65,9 @@ func maporderBody(s *simrt.Sim) {
 		if unvalidated(s) {
 			return
 		}
+	case 11:
+		views(s)
+		return
 	}
 	// entries with maps are preferred
 	var e *entry
@@ -107,6 +110,16 @@ func maporderBody(s *simrt.Sim) {
 		}
 		if d := same(want.Elem(), dst.Elem(), e.name); d != "" {
 			s.Fail("serix-roundtrip", "value:"+e.name, "decoded %s value differs from the encoded one: %s", e.name, d)
+		}
+		if bytes.Equal(keep, b1) {
+			// the caller re-uses its read buffer for the next message: the decoded value is the caller's and stays what it is
+			for i := range b1 {
+				b1[i] ^= 0xFF
+			}
+			if d := same(want.Elem(), dst.Elem(), e.name); d != "" {
+				s.Fail("serix-roundtrip", "value-changes-when-the-input-buffer-is-reused:"+e.name, "the decoded %s value equalled the encoded one until the caller overwrote the buffer it had handed to Decode: %s", e.name, d)
+			}
+			copy(b1, keep)
 		}
 		if !bytes.Equal(keep, b1) {
 			s.Fail("serix-roundtrip", "Decode-modifies-input:"+e.name, "Decode(validate=%v) of a valid %s encoding changed the bytes it was given (a second Decode of the caller's buffer no longer sees what Encode produced)\nbefore: %x\nafter:  %x", validate, e.name, clip(keep), clip(b1))
